@@ -89,6 +89,9 @@ int vt_timerfd_create(int clockid, int flags) { (void)clockid; (void)flags; g_ti
 int vt_timerfd_settime(int fd, int flags, const struct itimerspec* nv, struct itimerspec* ov)
 {
     (void)fd; (void)flags; (void)ov;
+    /* like the kernel: an invalid timespec is rejected */
+    if (nv && (nv->it_value.tv_nsec < 0 || nv->it_value.tv_nsec > 999999999L || nv->it_value.tv_sec < 0 ||
+               nv->it_interval.tv_nsec < 0 || nv->it_interval.tv_nsec > 999999999L)) { elog("TIMER rejected(EINVAL);"); errno = EINVAL; return -1; }
     g_timer_armed = nv && (nv->it_value.tv_sec || nv->it_value.tv_nsec);
     g_timer_periodic = nv && (nv->it_interval.tv_sec || nv->it_interval.tv_nsec);
     g_expiry_budget = 2;        /* horizon: a periodic timer fires at most twice between two datagrams */
@@ -106,7 +109,8 @@ ssize_t vt_recv(int fd, void* buf, size_t n, int flags)
     size_t c = (size_t)e->len < n ? (size_t)e->len : n;
     memcpy(buf, e->data, c);
     if (g_timer_periodic) { g_expiry_budget = 2; g_timer_armed = g_timer_armed || g_expiry_budget > 0; }
-    elog("RECV %d;", e->len);
+    fflush(stdout);
+    elog("RECV %d@%ld;", e->len, (long)lseek(STDOUT_FILENO, 0, SEEK_CUR));      /* where this datagram's output starts in the captured stdout */
     return (ssize_t)c;
 }
 ssize_t vt_recvfrom(int fd, void* buf, size_t n, int flags, struct sockaddr* a, socklen_t* l) { (void)a; (void)l; return vt_recv(fd, buf, n, flags); }
